@@ -233,48 +233,79 @@ inductive Mode where
   | setter        -- setters.convert(inst, field, v) called directly
   deriving DecidableEq, Repr, FromJson, ToJson, Inhabited
 
-/-- a second field `y` with its own plain converter `fy`, always given `ty`, before or after the field under test -/
-inductive Bg where
-  | none | before | after
+/-- one field of the class the converter is used in.  Every `shared` field is given THE SAME converter object
+    (the one built from the case's tree) and the input value; the other fields have their own plain converter
+    `fy` and are always given `ty`. -/
+structure Fld where
+  name   : String
+  shared : Bool
   deriving DecidableEq, Repr, FromJson, ToJson, Inhabited
 
 structure Case where
   tree   : ConvTree
   mode   : Mode
-  /-- the converter is used once per input, in this order, in one history -/
+  /-- the converter is used once per input (and per sharing field), in this order, in one history -/
   inputs : List Val
   /-- standalone: the tokens passed as instance and field -/
   inst   : String
   field  : String
-  /-- the field's name in the class (init / assign / setter) -/
-  fname  : String
-  bg     : Bg
+  /-- the class's fields in definition order (init / assign / setter) -/
+  flds   : List Fld
   deriving Repr, FromJson, ToJson, Inhabited
 
 structure Obs where
-  results : List String     -- `Res.render` of the outcome for each input
+  /-- `Res.render` of the outcomes.  standalone: one per input.  init: per input either the stored value of every
+      sharing field (in field order) or the one exception `__init__` raised.  assign / setter: per input one
+      outcome per sharing field. -/
+  results : List String
   trace   : List String     -- every user-function call, in order
   deriving DecidableEq, Repr, FromJson, ToJson, Inhabited
 
 def bgEvent : String := "fy(ty)"
 
-/-- one use of the converter in the given mode -/
-def step (c : Case) (o : Obj) (v : Val) (tr : Trace) : Out :=
-  match c.mode with
-  | .standalone => applyObj o v c.inst c.field tr
-  | .init | .initDefault =>
-    let tr1 := if c.bg = .before then tr ++ [bgEvent] else tr
-    match initApply o v c.fname tr1 with
-    | (.ok r, tr2) => (.ok r, if c.bg = .after then tr2 ++ [bgEvent] else tr2)
-    | (.exc e, tr2) => (.exc e, tr2)
-  | .assign | .setter => applyObj o v selfText (fieldText c.fname) tr
+/-- the body of the generated `__init__`: the fields in definition order, each through its converter line;
+    the first exception ends it (and there is no instance to look at) -/
+def initFields (apply : String → Val → Trace → Out) : List Fld → Val → Trace → Option Exc × List String × Trace
+  | [], _, tr => (none, [], tr)
+  | f :: fs, v, tr =>
+    if f.shared then
+      match apply f.name v tr with
+      | (.ok r, tr') =>
+        let rest := initFields apply fs v tr'
+        (rest.1, (Res.ok r).render :: rest.2.1, rest.2.2)
+      | (.exc e, tr') => (some e, [], tr')
+    else initFields apply fs v (tr ++ [bgEvent])
 
-def runInputs (stp : Val → Trace → Out) : List Val → Trace → List String × Trace
+def initRun (apply : String → Val → Trace → Out) (fs : List Fld) (v : Val) (tr : Trace) : List String × Trace :=
+  match initFields apply fs v tr with
+  | (some e, _, tr') => ([(Res.exc e).render], tr')
+  | (none, rs, tr') => (rs, tr')
+
+/-- one assignment (or one direct `setters.convert` call) per sharing field, each with its own outcome -/
+def assignFields (apply : String → Val → Trace → Out) : List Fld → Val → Trace → List String × Trace
+  | [], _, tr => ([], tr)
+  | f :: fs, v, tr =>
+    if f.shared then
+      let r := apply f.name v tr
+      let rest := assignFields apply fs v r.2
+      (r.1.render :: rest.1, rest.2)
+    else assignFields apply fs v tr
+
+/-- one input in the given mode -/
+def step (c : Case) (o : Obj) (v : Val) (tr : Trace) : List String × Trace :=
+  match c.mode with
+  | .standalone =>
+    let r := applyObj o v c.inst c.field tr
+    ([r.1.render], r.2)
+  | .init | .initDefault => initRun (fun name v tr => initApply o v name tr) c.flds v tr
+  | .assign | .setter => assignFields (fun name v tr => applyObj o v selfText (fieldText name) tr) c.flds v tr
+
+def runInputs (stp : Val → Trace → List String × Trace) : List Val → Trace → List String × Trace
   | [], tr => ([], tr)
   | v :: vs, tr =>
     let r := stp v tr
     let rest := runInputs stp vs r.2
-    (r.1.render :: rest.1, rest.2)
+    (r.1 ++ rest.1, rest.2)
 
 def model (c : Case) : Obs :=
   let r := runInputs (step c (build c.tree)) c.inputs []
